@@ -142,6 +142,8 @@ def gaps_of(text, toks):
     inside = set()
     for t in toks:
         inside.update(range(t[4] + 1, t[7]))
+        if t[0] == "comment" and text[t[4]:t[4] + 2] == b"//":
+            inside.add(t[7])          # a line comment is open-ended: its end (before the newline) is still inside it
     return [o for o in range(len(text) + 1) if o not in inside]
 
 # ------------------------------------------------------------------ generators
@@ -711,6 +713,16 @@ def tie_model(run, texts, progs, lexp, cases, news, lexn, quick):
         if r.get("panic"):
             run.count("malformed-lexer-panic")      # totality is C13's property; not compared
             continue
+        if any(x >= 128 for x in b):
+            # invalid UTF-8 and non-ASCII bytes outside strings/comments: how far the cursor moves there is C13's
+            # concern (fixes/C13-lexer-byte-advance.patch changes it); compared only where both behaviours agree
+            try:
+                b.decode("utf8"); valid = True
+            except UnicodeDecodeError:
+                valid = False
+            if not valid or any(d["msg"].startswith("unrecognized character") and not d["msg"].isascii() for d in r.get("diags") or []):
+                run.count("malformed-skipped-nonascii")
+                continue
         bases[k0 + j] = b
         cc.append((cid, k0 + j, 0, b"", impl_sum(r))); meta[cid] = (b, 0, b""); cid += 1
     # doc-comment model: predicted @extern flags vs D0005 diagnostics
